@@ -77,14 +77,24 @@ async def run_background_task(
     )
     logger.debug("Background task (%s) starting", task_handle.name)
 
+    func_exception: Exception | None = None
     try:
         with task_handle._cancel_scope:
             async with Context(ctx):
-                if has_task_status:
-                    await func(task_status=task_status)
-                else:
-                    task_status.started()
-                    await func()
+                try:
+                    if has_task_status:
+                        await func(task_status=task_status)
+                    else:
+                        task_status.started()
+                        await func()
+                except Exception as exc:
+                    func_exception = exc
+                    raise
+
+        # If the teardown of the task's context was cancelled, the cancel scope has
+        # swallowed the exception raised by the task function, so raise it again
+        if func_exception is not None:
+            raise func_exception
     except Exception as exc:
         logger.exception("Background task (%s) crashed", task_handle.name)
         if exception_handler is not None and exception_handler(exc):
